@@ -24,9 +24,12 @@ Oracle (nothing more than the property statement):
   no-hang   the per-run wall watchdog of the runner (Harness.wall_limit, >= 1000x the typical cost of a run) fired inside
             the code under test.
 
-Known finding D4 (DESIGN §5): JSONSerializer lets RecursionError (nesting >= ~1500) and ValueError (int literal > 4300
-digits) escape.  Exactly these two input classes — bracket nesting deeper than 500 and a run of more than 4000 digits —
-are produced only when `world.avoid_known` is False, and only by the `json` family (API.md rule 6).
+Finding D4 (DESIGN §5; fixed in /repo by d5d0f61): JSONSerializer let RecursionError (nesting >= ~1500) and ValueError
+(int literal > 4300 digits) escape.  Both input classes — bracket nesting of 3000-7000 levels and digit runs of 4301-13301
+digits — are generated in every run class (no avoid_known restriction any more), for every entry that receives JSON text
+directly; the keys stay `C06/<family>/<mode>/escape/RecursionError` and `.../escape/ValueError-int_max_str_digits`.
+Between the two regimes (nesting 400..3000) nothing is generated: the C recursion threshold (1498 here) depends on the
+stack depth at the call, and a run must be a pure function of its choices.
 """
 from __future__ import annotations
 
@@ -66,7 +69,7 @@ ASSUMPTIONS = [
     "pickle-based entries use a restricted pure-Python unpickler (find_class raises): the C unpickler sizes its memo array from a 4-byte index, "
     "which is an allocation hazard of CPython's pickle, not of EasyNetwork",
     "decompression bombs are not generated: the compressor wrappers have no configured limit, and the property quantifies 'up to the configured limit'",
-    "deep nesting (> 500) and digit runs (> 4000) are generated for the json family only, and only when avoid_known is False (known finding D4)",
+    "nesting depths between 400 and 3000 are not generated (RecursionError threshold zone, would make outcomes depend on the harness stack depth)",
     "the wall watchdog is the runner's per-run alarm (20 s for runs that normally take ~1 ms)",
 ]
 BUDGET = {"quick": 40, "thorough": 480}
@@ -499,7 +502,7 @@ def build_input(world: World, entry: M.Entry, limit: int, mode: str) -> tuple[by
         is_json = entry.family == "json"
         if is_json or (entry.family in ("stapled", "converter") and "json" in entry.hints and "b64" not in entry.hints and world.choose("x_json", 2)):
             lines = entry.sep == b"\n"
-            doc, limit, desc = extreme_json(world, limit, lines, allow_known=is_json and not world.avoid_known)
+            doc, limit, desc = extreme_json(world, limit, lines, allow_known=True)
             return doc, [len(doc)], limit, "extreme: " + desc
         doc, desc = extreme_framed(world, entry, limit)
         return doc, [len(doc)], limit, "extreme: " + desc
